@@ -50,7 +50,43 @@ func (r *x05Rig) view(src string, got, base x05Store) (map[string]int64, int64, 
 			vals[k] = d
 		}
 	}
+	for _, k := range r.viewKeys(src) { // a metric a provider does not show has counted nothing
+		if _, ok := vals[k]; !ok {
+			vals[k] = 0
+		}
+	}
 	return vals, got["ws"], unknown
+}
+
+// viewKeys lists every key of the specification's universe in the grouping a provider can show.
+func (r *x05Rig) viewKeys(src string) []string {
+	ks := []string{"requests", "notfound", "tcp.conn", "tcp.connfail", "tcp.noroute", "grpc.requests", "grpc.noroute", "grpc.conn"}
+	if src == "flat" {
+		return append(ks, "status.*", "route.*", "grpc.status.*", "redirect.*")
+	}
+	ks = append(ks, "redirect.301")
+	for _, s := range []string{"200", "500", "301", "403", "404", "502"} {
+		ks = append(ks, "status."+s)
+	}
+	for _, c := range []string{"OK", "Unavailable", "NotFound"} {
+		ks = append(ks, "grpc.status."+c)
+	}
+	for id, t := range r.targets {
+		if src == "prom" {
+			ks = append(ks, "route."+id)
+			continue
+		}
+		first := id
+		for o, u := range r.targets {
+			if u.name == t.name && o < first {
+				first = o
+			}
+		}
+		if first == id {
+			ks = append(ks, "name."+id)
+		}
+	}
+	return ks
 }
 
 func (r *x05Rig) readSrc(src string) (x05Store, error) {
